@@ -327,7 +327,7 @@ PROPS = {
         'assumptions': ['Mode::with_extensions only', 'two fixed option tables'],
     },
     'C02': {
-        'v_units': ['cmdsearch', 'looplevel', 'whileloop', 'forloop', 'casecmd', 'condframe', 'simplecmd', 'funcall'],
+        'v_units': ['cmdsearch', 'looplevel', 'returnbi', 'whileloop', 'forloop', 'casecmd', 'condframe', 'simplecmd', 'funcall'],
         'k_units': ['loopcount'],
         'level': 'other',
         'explanation': (
@@ -351,6 +351,11 @@ PROPS = {
             'Break{n-1}, Continue{n} becomes Continue{n-1}, return / exit / interrupt pass through); when the loop ends normally its '
             'status is the one the LAST execution of its body left, however that execution ended (finding F7: a round ended by `continue` '
             'was not recorded; fixed), and what it started with if the body never ran. '
+            '(2b) Unit returnbi (Verus): the `return` built-in (yash-builtin/src/return.rs main) asks for a return from the innermost function '
+            'with Divert::Return carrying the operand as the status to return with (None and its own status = the current $? without an operand), '
+            'leaves $? alone itself, with -n asks for nothing and only sets the status, and reports an error - never a Return divert - for two '
+            'operands, a negative or non-numeric operand or an option error; with units whileloop / forloop / condframe (the divert is handed on '
+            'unchanged) and funcall (it is absorbed by the innermost function call) this is "return leaves only the innermost function" end to end. '
             '(3b) Unit forloop (Verus): for_loop.rs execute runs the body once per value, in order, each run right after the loop variable was '
             'assigned that value, inside a Loop frame pushed on the caller\'s stack (gone afterwards, RAII assumed); every run but the last ended '
             'normally or with a continue of this loop; the loop stops early only when the last run did not let it go on and hands on that '
@@ -387,6 +392,7 @@ PROPS = {
             'unit looplevel: Stack::loop_count is external_body with the contract the Kani unit loopcount checks (bounded); NonZeroUsize::get returns the non-zero number; ExitStatus::SUCCESS = ExitStatus(0); Field and trap::Condition are placeholders',
             'unit loopcount (Kani): Frame::Builtin frames are not among the generated frames',
             'units simplecmd / funcall: word expansion, classification, the four executors (in simplecmd), error handlers, apply_errexit, the assignment performer, executing a function body, the environment hook, RedirGuard::perform_redirs, search_path, start_external_utility_in_subshell_and_wait, print_error, xtrace are opaque calls observed by ghost monitors; RAII of the context guard and of the redirection guard is assumed in the contracts of Env::push_context / RedirGuard::new (external_body), and perform_redirs is assumed to keep the reference the guard was made with; `&mut guard` is checked as `guard.env`, `let env = &mut RedirGuard::new(env)` as an owning binding; format!(..).into() messages are a helper call; await points dropped',
+            'unit returnbi: parse_arguments is external_body (answers uninterpreted views of the argument vector: well-formedness, the operands, whether -n was given; every option it hands out is -n; the Kani unit optparse checks the real parser, bounded, for C20); the error reporters are opaque calls that never answer a Return divert; str::parse::<i32> is an uninterpreted helper; unreachable!() is checked as a call with precondition false; slice::get / first through a helper with an assumed contract; await points dropped',
             'unit forloop: expanding the name and the words, the positional parameters, tracing, get_or_create_variable + assign (checked as ONE helper call), executing the body and the error handlers are opaque calls observed by a ghost monitor; `for PATTERN in vec` is checked as `while let Some(x) = <take the first element off>` (assumed contract of the helper; Verus has no `continue` in for loops); preconditions: a fresh monitor and a NON-EMPTY body (the parser rejects `do done`; with an empty body the function would leave $? alone for an empty value list); RAII of the frame guard assumed; await points dropped; termination not claimed',
             'unit casecmd: expanding the subject, tracing, testing the patterns of one item (matches) and executing one body are opaque calls driving a ghost monitor; the two calls are given the item itself instead of its patterns / body field (items carry their index as ghost data; precondition items_wf); testing patterns is assumed to leave $? alone; `for item in items` is checked as a while loop over the index; enum CaseContinuation is extracted from yash-syntax; preconditions: a fresh monitor; await points dropped',
             'unit whileloop: List::execute and evaluate_condition are external_body (any result, appended to a ghost log in the reduced Env); `?` on ControlFlow through assumed contracts of Try::branch / FromResidual::from_residual; await points dropped; termination not claimed',
